@@ -4,12 +4,21 @@ pub use std::sync::Arc;
 pub enum SEffect {
     Submit { chan: int, id: u32, data: Seq<u8> },    // (id, data) put on the session's outbound queue `chan`
     SynackSent { ok: bool },                          // the one-shot delivered this outcome to the opener
+    SendFailed,                                       // the session's forwarding task is gone (session closing): the item was dropped
+}
+// an EMPTY chunk on the outbound queue is the end-of-data marker (Session::process_stream_data turns it into FIN)
+pub open spec fn is_end_marker(e: SEffect) -> bool { e is Submit && e->Submit_data.len() == 0 }
+pub open spec fn has_end_marker(fx: Seq<SEffect>) -> bool { exists|i: int| 0 <= i < fx.len() && is_end_marker(#[trigger] fx[i]) }
+// nothing is queued behind the end marker: no data, no second marker
+pub open spec fn end_marker_is_last(fx: Seq<SEffect>) -> bool {
+    forall|i: int, j: int| 0 <= i < j < fx.len() && is_end_marker(#[trigger] fx[i]) ==> !((#[trigger] fx[j]) is Submit)
 }
 pub struct AtomicBool { pub v: bool }
 impl AtomicBool {
     pub fn vx_new(v: bool) -> (r: Self) ensures r.v == v { AtomicBool { v } }
     pub fn load(&self, o: Ordering) -> (r: bool) ensures r == self.v { self.v }
     pub fn store(&mut self, x: bool, o: Ordering) ensures final(self).v == x { self.v = x; }
+    pub fn swap(&mut self, x: bool, o: Ordering) -> (r: bool) ensures r == old(self).v, final(self).v == x { let r = self.v; self.v = x; r }
     #[verifier::external_body]
     pub fn compare_exchange(&mut self, cur: bool, new: bool, s: Ordering, f: Ordering) -> (r: std::result::Result<bool, bool>)
         ensures old(self).v == cur ==> r is Ok && final(self).v == new, old(self).v != cur ==> r is Err && final(self).v == old(self).v
@@ -23,7 +32,7 @@ pub mod mpsc_send {
         #[verifier::external_body]
         pub fn send(&self, value: (u32, Bytes), fx: &mut Ghost<Seq<SEffect>>) -> (r: std::result::Result<(), error::SendError<(u32, Bytes)>>)
             ensures r is Ok ==> final(fx)@ == old(fx)@.push(SEffect::Submit { chan: self.chan(), id: value.0, data: value.1@ }),
-                    r is Err ==> final(fx)@ == old(fx)@
+                    r is Err ==> final(fx)@ == old(fx)@.push(SEffect::SendFailed)
         { unimplemented!() }
     }
 }
@@ -56,7 +65,12 @@ pub struct StreamState {
     pub synack_tx: Option<oneshot::Sender<Result<()>>>,
     pub is_closed: AtomicBool,
     pub close_error: Option<AnyTlsError>,
+    pub fin_sent: AtomicBool,
     pub fx: Ghost<Seq<SEffect>>,
+}
+impl StreamState {
+    // history invariant of one stream's outbound side: the end marker, once queued, is the last thing queued, and the flag knows
+    pub open spec fn wf(&self) -> bool { end_marker_is_last(self.fx@) && (has_end_marker(self.fx@) ==> self.fin_sent.v) }
 }
 pub struct ReaderCellS { pub _p: () }
 pub struct Stream {
@@ -78,7 +92,7 @@ pub broadcast proof fn lemma_n_synack_push(fx: Seq<SEffect>, e: SEffect)
 pub trait AsyncRead { fn vx_block_poll_read_entry(&self, buf: &mut ReadBuf<'_>, ss: &mut StreamState) -> Poll<io::Result<()>>; }
 // tokio::io::AsyncWrite with the signatures rule R/H produce (Pin<&mut Self> -> &mut self, hoisted state appended)
 pub trait AsyncWrite {
-    fn poll_write(&mut self, _cx: &mut Context<'_>, buf: &[u8], ss: &mut StreamState) -> Poll<io::Result<usize>>;
+    fn poll_write(&mut self, _cx: &mut Context<'_>, buf: &[u8], ss: &mut StreamState) -> Poll<io::Result<usize>> requires old(ss).wf();
     fn poll_flush(&mut self, _cx: &mut Context<'_>, ss: &mut StreamState) -> Poll<io::Result<()>>;
-    fn poll_shutdown(&mut self, _cx: &mut Context<'_>, ss: &mut StreamState) -> Poll<io::Result<()>>;
+    fn poll_shutdown(&mut self, _cx: &mut Context<'_>, ss: &mut StreamState) -> Poll<io::Result<()>> requires old(ss).wf();
 }
